@@ -195,9 +195,15 @@ class SyncedDict(SyncedCollection, MutableMapping):
 
         """
         if _mapping_resolver.get_type(data) == "MAPPING":
-            self._update(data)
-            with self._thread_lock:
-                self._save()
+            if self._root is None:
+                # Resetting the root replaces the entire content, so the
+                # resource is not loaded first (it may not even be readable).
+                with self._thread_lock:
+                    self._update(data)
+                    self._save()
+            else:
+                with self._load_and_save:
+                    self._update(data)
         else:
             raise ValueError(
                 "Unsupported type: {}. The data must be a mapping or None.".format(
@@ -232,9 +238,15 @@ class SyncedDict(SyncedCollection, MutableMapping):
         return ret
 
     def clear(self):  # noqa: D102
-        self._data = {}
-        with self._thread_lock:
-            self._save()
+        if self._root is None:
+            # Clearing the root replaces the entire content, so the resource is
+            # not loaded first (it may not even be readable).
+            with self._thread_lock:
+                self._data.clear()
+                self._save()
+        else:
+            with self._load_and_save:
+                self._data.clear()
 
     def update(self, other=None, **kwargs):  # noqa: D102
         if other is not None:
